@@ -516,14 +516,15 @@ class Module(CanContainImportsDocumentable):
 class Package(Module):
     kind = DocumentableKind.PACKAGE
 
-# List of exceptions class names in the standard library, Python 3.8.10
+# List of exceptions class names in the standard library, Python 3.8.10,
+# plus the ones added since (EncodingWarning in 3.10, the exception groups in 3.11)
 _STD_LIB_EXCEPTIONS = ('ArithmeticError', 'AssertionError', 'AttributeError', 
-    'BaseException', 'BlockingIOError', 'BrokenPipeError', 
+    'BaseException', 'BaseExceptionGroup', 'BlockingIOError', 'BrokenPipeError', 
     'BufferError', 'BytesWarning', 'ChildProcessError', 
     'ConnectionAbortedError', 'ConnectionError', 
     'ConnectionRefusedError', 'ConnectionResetError', 
-    'DeprecationWarning', 'EOFError', 
-    'EnvironmentError', 'Exception', 'FileExistsError', 
+    'DeprecationWarning', 'EOFError', 'EncodingWarning', 
+    'EnvironmentError', 'Exception', 'ExceptionGroup', 'FileExistsError', 
     'FileNotFoundError', 'FloatingPointError', 'FutureWarning', 
     'GeneratorExit', 'IOError', 'ImportError', 'ImportWarning', 
     'IndentationError', 'IndexError', 'InterruptedError', 
